@@ -132,3 +132,208 @@ Lemma nth_error_repeat {A} (x : A) n i : (i < n)%nat -> nth_error (repeat x n) i
 Proof. revert i; induction n; destruct i; cbn [repeat nth_error]; intros; try lia; auto. apply IHn; lia. Qed.
 Lemma nth_error_some_lt {A} (l : list A) i x : nth_error l i = Some x -> (i < length l)%nat.
 Proof. intros H. apply nth_error_Some. congruence. Qed.
+
+(* ---------- powers of two, geometry ---------- *)
+Lemma pow2_pos k : 0 < pow2 k.
+Proof. unfold pow2. apply N.neq_0_lt_0, N.pow_nonzero. discriminate. Qed.
+Lemma pow2_nz k : pow2 k <> 0. Proof. pose proof (pow2_pos k). lia. Qed.
+Lemma pow2_0 : pow2 0 = 1. Proof. reflexivity. Qed.
+Lemma pow2_S k : pow2 (S k) = 2 * pow2 k.
+Proof. unfold pow2. rewrite Nat2N.inj_succ, N.pow_succ_r'. reflexivity. Qed.
+Lemma pow2_add a b : pow2 (a + b) = pow2 a * pow2 b.
+Proof. unfold pow2. rewrite Nat2N.inj_add, N.pow_add_r. reflexivity. Qed.
+Lemma pow2_le a b : (a <= b)%nat -> pow2 a <= pow2 b.
+Proof. intros H. unfold pow2. apply N.pow_le_mono_r; lia. Qed.
+Lemma pow2_lt a b : (a < b)%nat -> pow2 a < pow2 b.
+Proof. intros H. unfold pow2. apply N.pow_lt_mono_r; lia. Qed.
+Lemma pow2_split a b : (a <= b)%nat -> pow2 b = pow2 (b - a) * pow2 a.
+Proof. intros H. rewrite <- pow2_add. f_equal. lia. Qed.
+Lemma pow2_6 : pow2 6 = 64. Proof. reflexivity. Qed.
+
+Section Geom.
+  Variable g : geom.
+  Hypothesis wf : wf_geom g.
+  Notation HF := (HF g).
+  Notation TF := (TF g).
+  Notation THUGE := (THUGE g).
+  Notation ROWS := (ROWS g).
+
+  Lemma HF_pow2 : HF = pow2 (hord g). Proof. reflexivity. Qed.
+  Lemma THUGE_pow2 : THUGE = pow2 (tlog g). Proof. reflexivity. Qed.
+  Lemma TF_pow2 : TF = pow2 (tord g). Proof. unfold TF, tord. rewrite Nat.add_comm, pow2_add. reflexivity. Qed.
+  Lemma HF_64 : HF = 64 * ROWS.
+  Proof. destruct wf as (H6 & _). unfold Bitfield.ROWS. rewrite HF_pow2, (pow2_split 6 (hord g)) by lia.
+    rewrite pow2_6, N.div_mul by discriminate. lia. Qed.
+  Lemma ROWS_pow2 : ROWS = pow2 (hord g - 6).
+  Proof. destruct wf as (H6 & _). unfold Bitfield.ROWS. rewrite HF_pow2, (pow2_split 6 (hord g)) by lia.
+    rewrite pow2_6, N.div_mul by discriminate. reflexivity. Qed.
+  Lemma ROWS_pos : 0 < ROWS. Proof. rewrite ROWS_pow2. apply pow2_pos. Qed.
+  Lemma HF_pos : 0 < HF. Proof. apply pow2_pos. Qed.
+  Lemma THUGE_pos : 0 < THUGE. Proof. apply pow2_pos. Qed.
+  Lemma TF_pos : 0 < TF. Proof. rewrite TF_pow2. apply pow2_pos. Qed.
+  Lemma HF_lt_MARK : HF < MARK.
+  Proof. destruct wf as (_ & H15 & _). rewrite HF_pow2. pose proof (pow2_le _ _ H15). change (pow2 15) with 32768 in H.
+    unfold MARK. lia. Qed.
+  Lemma ROWS_nat : ROWS = N.of_nat (rows_nat g).
+  Proof. rewrite ROWS_pow2. unfold rows_nat, pow2. rewrite Nat2N.inj_pow. reflexivity. Qed.
+  Lemma pow2_le_HF k : (k <= hord g)%nat -> pow2 k <= HF. Proof. apply pow2_le. Qed.
+  Lemma pow2_lt_HF k : (k < hord g)%nat -> pow2 k < HF. Proof. apply pow2_lt. Qed.
+
+  (* ----- the (huge frame, row, bit) decomposition of a frame number ----- *)
+  Lemma rowbit_lt r i : r < ROWS -> i < 64 -> r * 64 + i < HF.
+  Proof. intros. rewrite HF_64. nia. Qed.
+
+  (* an interval inside huge frame h0 *)
+  Lemma inb_in_huge h0 b0 w h b : b0 + w <= HF -> b < HF ->
+    inb (h0 * HF + b0) w (h * HF + b) = (h =? h0) && inb b0 w b.
+  Proof.
+    intros Hw Hb. unfold inb. pose proof HF_pos.
+    destruct (N.eqb_spec h h0) as [->|Hne]; [cbn [andb]; lia|].
+    cbn [andb]. destruct (N.lt_gt_cases h h0) as [Hn _]. specialize (Hn Hne). destruct Hn as [Hlt|Hgt].
+    - assert (h * HF + HF <= h0 * HF) by nia. lia.
+    - assert (h0 * HF + HF <= h * HF) by nia. lia.
+  Qed.
+  (* an interval inside row r0 *)
+  Lemma inb_in_row r0 off w r i : off + w <= 64 -> i < 64 ->
+    inb (r0 * 64 + off) w (r * 64 + i) = (r =? r0) && inb off w i.
+  Proof. intros Hw Hi. unfold inb. lia. Qed.
+  (* an interval of whole rows *)
+  Lemma inb_rows r0 cnt r i : i < 64 -> inb (r0 * 64) (64 * cnt) (r * 64 + i) = inb r0 cnt r.
+  Proof. intros Hi. unfold inb. lia. Qed.
+  (* an interval of whole entries *)
+  Lemma inb_ents h0 cnt h b : b < HF -> inb (h0 * HF) (cnt * HF) (h * HF + b) = inb h0 cnt h.
+  Proof.
+    intros Hb. unfold inb. pose proof HF_pos.
+    destruct (N.leb_spec h0 h) as [H1|H1]; destruct (N.ltb_spec h (h0 + cnt)) as [H2|H2]; cbn [andb].
+    - assert (h0 * HF <= h * HF) by nia. assert (h * HF + HF <= (h0 + cnt) * HF) by nia. lia.
+    - assert (h0 * HF <= h * HF) by nia. assert ((h0 + cnt) * HF <= h * HF) by nia. lia.
+    - assert (h * HF + HF <= h0 * HF) by nia. lia.
+    - assert (h * HF + HF <= h0 * HF) by nia. lia.
+  Qed.
+End Geom.
+
+(* ---------- bits of a 64-bit row ---------- *)
+(* zero bits of a row *)
+Definition cz (v : N) : N := ssum 64 (fun i => 1 - b2n (N.testbit v i)).
+
+Lemma cz_le v : cz v <= 64.
+Proof. unfold cz. etransitivity; [apply (ssum_le _ _ (fun _ => 1)); intros; lia|]. rewrite ssum_const. lia. Qed.
+Lemma cz_0 : cz 0 = 64. Proof. reflexivity. Qed.
+Lemma cz_MAX64 : cz MAX64 = 0. Proof. reflexivity. Qed.
+
+Lemma testbit_MAX64 i : N.testbit MAX64 i = (i <? 64).
+Proof. rewrite MAX64_ones. destruct (N.ltb_spec i 64); [apply N.ones_spec_low|apply N.ones_spec_high]; lia. Qed.
+Lemma row_high v i : v < W64 -> 64 <= i -> N.testbit v i = false.
+Proof. intros Hv Hi. apply (testbit_high v 64); [rewrite <- W64_pow; exact Hv|exact Hi]. Qed.
+Lemma row_all_set v : v < W64 -> (forall i, i < 64 -> N.testbit v i = true) -> v = MAX64.
+Proof. intros Hv H. apply N.bits_inj. intros i. rewrite testbit_MAX64. destruct (N.ltb_spec i 64); [apply H; assumption|].
+  apply row_high; assumption. Qed.
+Lemma row_all_clear v : v < W64 -> (forall i, i < 64 -> N.testbit v i = false) -> v = 0.
+Proof. intros Hv H. apply N.bits_inj. intros i. rewrite N.bits_0. destruct (N.lt_ge_cases i 64); [apply H; assumption|].
+  apply row_high; assumption. Qed.
+
+(* effect on the zero count of setting / clearing the bits [off, off+w) *)
+Lemma cz_set v v' off w : off + w <= 64 ->
+  (forall i, i < 64 -> N.testbit v' i = N.testbit v i || inb off w i) ->
+  (forall i, inb off w i = true -> N.testbit v i = false) ->
+  cz v' + w = cz v.
+Proof.
+  intros Hw Hs Hz. unfold cz. rewrite <- (ssum_inb_in 64 off w Hw), <- ssum_add.
+  apply ssum_ext. intros i Hi. rewrite (Hs i Hi). specialize (Hz i).
+  destruct (inb off w i); [rewrite Hz by reflexivity; cbn; lia|]. rewrite orb_false_r. lia.
+Qed.
+Lemma cz_clear v v' off w : off + w <= 64 ->
+  (forall i, i < 64 -> N.testbit v' i = N.testbit v i && negb (inb off w i)) ->
+  (forall i, inb off w i = true -> N.testbit v i = true) ->
+  cz v' = cz v + w.
+Proof.
+  intros Hw Hs Hz. unfold cz. rewrite <- (ssum_inb_in 64 off w Hw), <- ssum_add.
+  apply ssum_ext. intros i Hi. rewrite (Hs i Hi). specialize (Hz i).
+  destruct (inb off w i); [rewrite Hz by reflexivity; cbn; lia|]. rewrite andb_true_r. lia.
+Qed.
+
+(* masks *)
+Lemma testbit_mask64 w off i : N.testbit (mask64 w off) i = inb off w i.
+Proof.
+  unfold mask64, ones, inb.
+  destruct (N.leb_spec off i) as [H|H].
+  - rewrite N.shiftl_spec_high' by assumption.
+    destruct (N.ltb_spec i (off + w)); [rewrite N.ones_spec_low by lia|rewrite N.ones_spec_high by lia]; reflexivity.
+  - rewrite N.shiftl_spec_low by assumption. reflexivity.
+Qed.
+Lemma mask64_lt w off : off + w <= 64 -> mask64 w off < W64.
+Proof. intros H. rewrite W64_pow. apply lt_pow2_bits. intros i Hi. rewrite testbit_mask64. unfold inb. lia. Qed.
+Lemma land_mask_zero e m : N.land e m = 0 <-> (forall i, N.testbit m i = true -> N.testbit e i = false).
+Proof. split.
+  - intros H i Hm. assert (T : N.testbit (N.land e m) i = false) by (rewrite H; apply N.bits_0).
+    rewrite N.land_spec, Hm, andb_true_r in T. exact T.
+  - intros H. apply N.bits_inj. intros i. rewrite N.bits_0, N.land_spec. specialize (H i).
+    destruct (N.testbit m i); [rewrite H by reflexivity; reflexivity|apply andb_false_r]. Qed.
+Lemma land_mask_full e m : N.land e m = m <-> (forall i, N.testbit m i = true -> N.testbit e i = true).
+Proof. split.
+  - intros H i Hm. assert (T : N.testbit (N.land e m) i = true) by (rewrite H; exact Hm).
+    rewrite N.land_spec, Hm, andb_true_r in T. exact T.
+  - intros H. apply N.bits_inj. intros i. rewrite N.land_spec. specialize (H i).
+    destruct (N.testbit m i); [rewrite H by reflexivity; reflexivity|apply andb_false_r]. Qed.
+Lemma land_lt a b : a < W64 -> N.land a b < W64.
+Proof. intros H. rewrite W64_pow in *. apply lt_pow2_bits. intros i Hi. rewrite N.land_spec, (testbit_high a 64 i) by assumption. reflexivity. Qed.
+Lemma lxor_lt a b : a < W64 -> b < W64 -> N.lxor a b < W64.
+Proof. intros Ha Hb. rewrite W64_pow in *. apply lt_pow2_bits. intros i Hi.
+  rewrite N.lxor_spec, (testbit_high a 64 i), (testbit_high b 64 i) by assumption. reflexivity. Qed.
+Lemma lor_lt a b : a < W64 -> b < W64 -> N.lor a b < W64.
+Proof. rewrite W64_pow. apply lor_lt_pow2. Qed.
+
+(* the lane of a narrow compare-exchange *)
+Lemma lane_testbit_sh cur off w j : N.testbit (N.land (N.shiftr cur off) (ones w)) j = N.testbit cur (j + off) && (j <? w).
+Proof. unfold ones. rewrite N.land_spec, N.shiftr_spec'.
+  destruct (N.ltb_spec j w); [rewrite N.ones_spec_low by assumption|rewrite N.ones_spec_high by assumption]; reflexivity. Qed.
+Lemma lane_zero cur off w : N.land (N.shiftr cur off) (ones w) = 0 <-> (forall i, inb off w i = true -> N.testbit cur i = false).
+Proof. unfold inb. split.
+  - intros H i Hi. assert (T : N.testbit (N.land (N.shiftr cur off) (ones w)) (i - off) = false) by (rewrite H; apply N.bits_0).
+    rewrite lane_testbit_sh in T. replace (i - off + off) with i in T by lia.
+    destruct (N.ltb_spec (i - off) w); [|lia]. rewrite andb_true_r in T. exact T.
+  - intros H. apply N.bits_inj. intros j. rewrite N.bits_0, lane_testbit_sh.
+    destruct (N.ltb_spec j w); [|apply andb_false_r]. rewrite H by lia. reflexivity. Qed.
+Lemma lane_ones cur off w : N.land (N.shiftr cur off) (ones w) = ones w <-> (forall i, inb off w i = true -> N.testbit cur i = true).
+Proof. unfold inb. split.
+  - intros H i Hi. assert (T : N.testbit (N.land (N.shiftr cur off) (ones w)) (i - off) = true).
+    { rewrite H. unfold ones. apply N.ones_spec_low. lia. }
+    rewrite lane_testbit_sh in T. replace (i - off + off) with i in T by lia.
+    apply andb_true_iff in T. tauto.
+  - intros H. apply N.bits_inj. intros j. rewrite lane_testbit_sh. unfold ones.
+    destruct (N.ltb_spec j w); [rewrite N.ones_spec_low by assumption|rewrite N.ones_spec_high by assumption; apply andb_false_r].
+    rewrite H by lia. reflexivity. Qed.
+Lemma testbit_lxor_mask cur off w i : N.testbit (N.lxor cur (N.shiftl (ones w) off)) i = xorb (N.testbit cur i) (inb off w i).
+Proof. rewrite N.lxor_spec. change (N.shiftl (ones w) off) with (mask64 w off). rewrite testbit_mask64. reflexivity. Qed.
+
+(* popcount is the number of set bits (needed once, to read LowerInv's counter at boot) *)
+Lemma ssum_double_bits a n : ssum (n + 1) (fun i => b2n (N.testbit (2 * a) i)) = ssum n (fun i => b2n (N.testbit a i)).
+Proof.
+  rewrite N.add_comm, ssum_shift. change (ssum 1 (fun i => b2n (N.testbit (2 * a) i))) with (b2n (N.testbit (2 * a) 0) + 0).
+  rewrite N.testbit_even_0. cbn [b2n]. rewrite N.add_0_l. apply ssum_ext. intros i _.
+  rewrite N.add_1_l, N.double_bits_succ. reflexivity. Qed.
+Lemma ssum_sdouble_bits a n : ssum (n + 1) (fun i => b2n (N.testbit (2 * a + 1) i)) = 1 + ssum n (fun i => b2n (N.testbit a i)).
+Proof.
+  rewrite N.add_comm, ssum_shift. change (ssum 1 (fun i => b2n (N.testbit (2 * a + 1) i))) with (b2n (N.testbit (2 * a + 1) 0) + 0).
+  rewrite N.testbit_odd_0. cbn [b2n]. rewrite N.add_0_r. f_equal. apply ssum_ext. intros i _.
+  rewrite N.add_1_l, N.testbit_odd_succ by lia. reflexivity. Qed.
+Lemma popcount_bits n : forall v, v < 2 ^ n -> popcount v = ssum n (fun i => b2n (N.testbit v i)).
+Proof.
+  induction n using ssum_ind; intros v Hv.
+  - change (2 ^ 0) with 1 in Hv. assert (v = 0) by lia. subst. reflexivity.
+  - rewrite N.add_1_r, N.pow_succ_r' in Hv.
+    destruct (N.even v) eqn:Ev.
+    + apply N.even_spec in Ev. destruct Ev as [a ->]. rewrite popcount_double, ssum_double_bits. apply IHn. lia.
+    + assert (Ho : N.odd v = true) by (rewrite <- N.negb_even, Ev; reflexivity).
+      apply N.odd_spec in Ho. destruct Ho as [a ->]. rewrite popcount_succ_double, ssum_sdouble_bits, <- IHn by lia. lia.
+Qed.
+Lemma cz_popcount v : v < W64 -> cz v = count_zeros64 v.
+Proof.
+  intros Hv. unfold count_zeros64, cz. rewrite (popcount_bits 64 v) by (rewrite <- W64_pow; exact Hv).
+  assert (H : ssum 64 (fun i => 1 - b2n (N.testbit v i)) + ssum 64 (fun i => b2n (N.testbit v i)) = 64).
+  { rewrite <- ssum_add. rewrite (ssum_ext _ _ (fun _ => 1)) by (intros; lia). reflexivity. }
+  lia.
+Qed.
+(* set bits plus zero bits *)
+Lemma cz_bits v : ssum 64 (fun i => b2n (N.testbit v i)) + cz v = 64.
+Proof. unfold cz. rewrite <- ssum_add. rewrite (ssum_ext _ _ (fun _ => 1)) by (intros; lia). reflexivity. Qed.
